@@ -19,6 +19,8 @@ pub struct Recorded {
     pub cfgs: Vec<(usize, Cfg)>,
     /// write counter after the workload (fresh values continue from here)
     pub counter: u64,
+    /// base of the per-level size limits the workload ran with (the recoveries use the same)
+    pub level_base: u64,
     /// concurrent workloads only: per client thread its writes in program order as (journal length
     /// at entry, journal length at return, items). The threads write disjoint key groups.
     pub conc: Vec<Vec<(usize, usize, Items)>>,
@@ -80,6 +82,7 @@ fn apply_write(
 
 /// Run the write-only part of a case on a journalling MemFs.
 pub fn record(case: &Case) -> Result<Recorded, String> {
+    raindb::verif::set_level_base_bytes(crate::engine::level_base_for(&case.cfg));
     let fs = Arc::new(MemFs::new(true));
     let mut rec = Recorded {
         journal: vec![],
@@ -87,6 +90,7 @@ pub fn record(case: &Case) -> Result<Recorded, String> {
         states: vec![Model::new()],
         cfgs: vec![(0, case.cfg)],
         counter: 0,
+        level_base: crate::engine::level_base_for(&case.cfg),
         conc: vec![],
         group_commit: false,
     };
@@ -277,6 +281,7 @@ pub fn conc_universe(wl: &ConcWl) -> Vec<Vec<u8>> {
 
 /// Run a concurrent workload on a journalling MemFs.
 pub fn record_conc(wl: &ConcWl) -> Result<Recorded, String> {
+    raindb::verif::set_level_base_bytes(crate::engine::level_base_for(&wl.cfg));
     use std::sync::atomic::Ordering;
     let fs = Arc::new(MemFs::new(true));
     let db = Arc::new(DB::open(options(&fs, &wl.cfg)).map_err(|e| format!("open failed: {e:?}"))?);
@@ -364,6 +369,7 @@ pub fn record_conc(wl: &ConcWl) -> Result<Recorded, String> {
         states: vec![],
         cfgs: vec![(0, wl.cfg)],
         counter: 9_000_000,
+        level_base: crate::engine::level_base_for(&wl.cfg),
         conc,
         group_commit,
     })
